@@ -44,3 +44,125 @@ twin('C05', 'bs-abort-guard-inverted', BSPY, 'BaseStorage.tpc_abort',
                     self._transaction = None
                 finally:
                     self._commit_lock.release()''')
+
+# ---------------------------------------------------------------- C01
+breaker('C01', 'finish-no-fsync', 'C01.R1', FSPY, 'FileStorage._finish_finish',
+        '''        if fsync is not None:
+            fsync(self._file.fileno())
+''', '')
+breaker('C01', 'finish-no-flush', 'C01.R1', FSPY, 'FileStorage._finish_finish',
+        '''        self._file.flush()
+''', '')
+breaker('C01', 'finish-publish-before-fsync', 'C01.R1', FSPY,
+        'FileStorage._finish_finish',
+        '''        self._file.flush()
+        if fsync is not None:
+            fsync(self._file.fileno())
+
+        self._pos = self._nextpos
+''', '''        self._pos = self._nextpos
+        self._file.flush()
+        if fsync is not None:
+            fsync(self._file.fileno())
+
+''')
+breaker('C01', 'finish-fsync-tfile', 'C01.R1', FSPY,
+        'FileStorage._finish_finish',
+        'fsync(self._file.fileno())', 'fsync(self._tfile.fileno())')
+breaker('C01', 'finish-fsync-conditional', 'C01.R1', FSPY,
+        'FileStorage._finish_finish',
+        'if fsync is not None:', 'if fsync is not None and self._quota:')
+breaker('C01', 'vote-status-blank', 'C01.R2', FSPY, 'FileStorage.tpc_vote',
+        'h = TxnHeader(self._tid, tl, "c", len(user),',
+        'h = TxnHeader(self._tid, tl, " ", len(user),')
+breaker('C01', 'finish-status-offset', 'C01.R2', FSPY, 'FileStorage._finish',
+        'self._file.seek(self._pos + 16)', 'self._file.seek(self._pos + 8)')
+breaker('C01', 'vote-length-before-records', 'C01.R3', FSPY,
+        'FileStorage.tpc_vote',
+        '''                cp(self._tfile, self._file, dlen)
+                self._file.write(p64(tl))''',
+        '''                self._file.write(p64(tl))
+                cp(self._tfile, self._file, dlen)''')
+breaker('C01', 'vote-no-flush', 'C01.R3', FSPY, 'FileStorage.tpc_vote',
+        '''                self._file.flush()
+''', '')
+breaker('C01', 'vote-trailing-length-differs', 'C01.R3', FSPY,
+        'FileStorage.tpc_vote',
+        'self._file.write(p64(tl))', 'self._file.write(p64(dlen))')
+breaker('C01', 'vote-no-truncate-on-error', 'C01.R4', FSPY,
+        'FileStorage.tpc_vote',
+        '''                self._file.truncate(self._pos)
+                self._files.flush()
+                raise''', '''                self._files.flush()
+                raise''')
+breaker('C01', 'vote-swallow-error', 'C01.R4', FSPY, 'FileStorage.tpc_vote',
+        '''                self._files.flush()
+                raise
+''', '''                self._files.flush()
+''')
+breaker('C01', 'store-appends-to-datafile', 'C01.R5', FSPY,
+        'FileStorage.store',
+        '''            self._tfile.write(data)
+
+            # Check quota''',
+        '''            self._tfile.write(data)
+            if self._quota is None and not self._tindex:
+                self._file.seek(0, 2)
+                self._file.write(data)
+
+            # Check quota''')
+breaker('C01', 'scan-accepts-checkpoint', 'C01.R6', FSPY, 'read_index',
+        "if pos + (tl + 8) > file_size or status == 'c':",
+        "if pos + (tl + 8) > file_size:")
+breaker('C01', 'scan-no-truncate-short-header', 'C01.R6', FSPY, 'read_index',
+        '''                logger.warning('%s truncated at %s', name, pos)
+                seek(pos)
+                file.truncate()''',
+        '''                logger.warning('%s truncated at %s', name, pos)
+                seek(pos)''')
+breaker('C01', 'scan-no-redundant-length-check', 'C01.R6', FSPY, 'read_index',
+        '''        if h != tl:
+            if recover:
+                return tpos, None, None
+            panic("%s redundant transaction length check failed at %s",
+                  name, pos)
+        pos += 8''', '''        pos += 8''')
+twin('C01', 'finish-rename-local', FSPY, 'FileStorage.tpc_finish',
+     '''                    tid = self._tid
+                    if f is not None:
+                        f(tid)
+                    self._finish(tid, *self._ude)''',
+     '''                    the_tid = tid = self._tid
+                    if f is not None:
+                        f(the_tid)
+                    self._finish(the_tid, *self._ude)''')
+twin('C01', 'finish-sync-helper', FSPY, 'FileStorage',
+     '''        self._file.flush()
+        if fsync is not None:
+            fsync(self._file.fileno())
+
+        self._pos = self._nextpos''', '''        self._sync_data_file()
+        self._pos = self._nextpos''' + """
+        self._index.update(self._tindex)
+        self._ltid = tid
+        self._blob_tpc_finish()
+
+    def _sync_data_file(self):
+        handle = self._file
+        handle.flush()
+        if fsync is not None:
+            fsync(handle.fileno())
+
+    def _finish_finish_old(self, tid):
+        self._pos = self._nextpos""")
+twin('C01', 'vote-handler-order', FSPY, 'FileStorage.tpc_vote',
+     '''                self._file.truncate(self._pos)
+                self._files.flush()
+                raise''', '''                try:
+                    self._file.truncate(self._pos)
+                finally:
+                    self._files.flush()
+                raise''')
+twin('C01', 'scan-status-test-split', FSPY, 'read_index',
+     "if pos + (tl + 8) > file_size or status == 'c':",
+     "if status == 'c' or pos + (tl + 8) > file_size:")
